@@ -20,8 +20,8 @@ import ast
 import importlib
 import itertools
 import json
-import multiprocessing
 import os
+import pickle
 import re
 import signal
 import subprocess
@@ -88,6 +88,71 @@ def _run_chunk(payload):
     finally:
         world.drop()
     return idx, agg
+
+
+def fork_pool(chunks, jobs, base, on_result):
+    """Run every chunk in a process forked from this (pristine) parent; results come back as pickle files.
+    A worker that dies is reported as a violation of its chunk, never waited for."""
+    running = {}
+    it = iter(chunks)
+    exhausted = stop = False
+    try:
+        while True:
+            while not exhausted and not stop and len(running) < jobs:
+                try:
+                    idx, block = next(it)
+                except StopIteration:
+                    exhausted = True
+                    break
+                path = os.path.join(base, 'result-%d.pkl' % idx)
+                sys.stdout.flush()
+                sys.stderr.flush()
+                pid = os.fork()
+                if pid == 0:
+                    code = 0
+                    try:
+                        out = _run_chunk((idx, block))
+                        with open(path + '.tmp', 'wb') as f:
+                            pickle.dump(out, f, protocol=pickle.HIGHEST_PROTOCOL)
+                        os.rename(path + '.tmp', path)
+                    except BaseException:  # noqa
+                        traceback.print_exc()
+                        code = 17
+                    finally:
+                        sys.stdout.flush()
+                        sys.stderr.flush()
+                        os._exit(code)
+                running[pid] = (idx, path, block)
+            if not running:
+                break
+            pid, status = os.wait()
+            if pid not in running:
+                continue
+            idx, path, block = running.pop(pid)
+            if status == 0 and os.path.exists(path):
+                with open(path, 'rb') as f:
+                    _, r = pickle.load(f)
+                os.unlink(path)
+            else:
+                r = Result()
+                r.n = len(block)
+                r.nviol = 1
+                r.viol.append((block[0], ['worker process for chunk %d died (wait status %d): crash or memory exhaustion while '
+                                          'running its %d cases' % (idx, status, len(block))], None, idx, 0))
+            if on_result(idx, r):
+                stop = True
+                break
+    finally:
+        for pid in list(running):
+            try:
+                os.kill(pid, signal.SIGKILL)
+            except OSError:
+                pass
+        for pid in list(running):
+            try:
+                os.waitpid(pid, 0)
+            except OSError:
+                pass
 
 
 def _chunks(it, size):
@@ -244,30 +309,28 @@ def main(argv=None):
         if args.limit:
             gen = itertools.islice(gen, args.limit)
             capped = 'debug --limit %d chunks' % args.limit
-        ctx = multiprocessing.get_context('fork')
+        def on_result(idx, r):
+            nonlocal nchunks, capped
+            nchunks += 1
+            cand.extend(r.viol)
+            r.viol = []
+            agg.merge(r)
+            if agg.nviol >= 40:
+                capped = 'stopped early after %d violations' % agg.nviol
+                return True
+            if budget and time.time() - t0 > budget:
+                capped = 'time budget of %ds reached after %d chunks of %d cases (in canonical order)' % (
+                    budget, nchunks, chunk_size)
+                return True
+            return False
+
         if args.jobs <= 1:
-            results = map(_run_chunk, gen)
-            pool = None
+            for payload in gen:
+                idx, r = _run_chunk(payload)
+                if on_result(idx, r):
+                    break
         else:
-            pool = ctx.Pool(args.jobs, maxtasksperchild=1)
-            results = pool.imap_unordered(_run_chunk, gen)
-        try:
-            for idx, r in results:
-                nchunks += 1
-                cand.extend(r.viol)
-                r.viol = []
-                agg.merge(r)
-                if agg.nviol >= 40:
-                    capped = 'stopped early after %d violations' % agg.nviol
-                    break
-                if budget and time.time() - t0 > budget:
-                    capped = 'time budget of %ds reached after %d chunks of %d cases (in canonical order)' % (
-                        budget, nchunks, chunk_size)
-                    break
-        finally:
-            if pool is not None:
-                pool.terminate()
-                pool.join()
+            fork_pool(gen, args.jobs, base, on_result)
         # --- confirm candidate violations in fresh interpreters ---------------------
         cand.sort(key=lambda c: (c[3], c[4]))
         confirmed, unconfirmed = [], []
